@@ -32,11 +32,42 @@ fn add(n: isize) {
     });
 }
 
+type FailHook = Box<dyn Fn(usize) + Send + Sync>;
+static FAIL_HOOK: std::sync::Mutex<Option<FailHook>> = std::sync::Mutex::new(None);
+thread_local! {
+    static IN_FAIL: Cell<bool> = const { Cell::new(false) };
+}
+
+/// Called (on the requesting thread) when the system allocator refuses a
+/// request. std would abort the process right after; the hook gets the chance
+/// to save the case being judged and to exit with a meaningful code first.
+pub fn set_fail_hook(h: Option<FailHook>) {
+    if let Ok(mut g) = FAIL_HOOK.lock() {
+        *g = h;
+    }
+}
+
+#[cold]
+fn alloc_failed(size: usize) {
+    let nested = IN_FAIL.try_with(|c| c.replace(true)).unwrap_or(true);
+    if nested {
+        return;
+    }
+    if let Ok(g) = FAIL_HOOK.lock() {
+        if let Some(h) = g.as_ref() {
+            h(size);
+        }
+    }
+    let _ = IN_FAIL.try_with(|c| c.set(false));
+}
+
 unsafe impl GlobalAlloc for Counting {
     unsafe fn alloc(&self, layout: Layout) -> *mut u8 {
         let p = System.alloc(layout);
         if !p.is_null() {
             add(layout.size() as isize);
+        } else {
+            alloc_failed(layout.size());
         }
         p
     }
@@ -44,6 +75,8 @@ unsafe impl GlobalAlloc for Counting {
         let p = System.alloc_zeroed(layout);
         if !p.is_null() {
             add(layout.size() as isize);
+        } else {
+            alloc_failed(layout.size());
         }
         p
     }
@@ -61,6 +94,8 @@ unsafe impl GlobalAlloc for Counting {
             } else {
                 add(new_size as isize - layout.size() as isize);
             }
+        } else {
+            alloc_failed(new_size);
         }
         p
     }
